@@ -1677,7 +1677,10 @@ impl EGraph {
                 self.add_ruleset(name.clone());
                 log::info!("Declared ruleset {name}.");
             }
-            ResolvedNCommand::UnstableCombinedRuleset(_span, name, others) => {
+            ResolvedNCommand::UnstableCombinedRuleset(span, name, others) => {
+                if let Some(missing) = others.iter().find(|r| !self.rulesets.contains_key(*r)) {
+                    return Err(Error::NoSuchRuleset(missing.clone(), span.clone()));
+                }
                 self.add_combined_ruleset(name.clone(), others);
                 log::info!("Declared ruleset {name}.");
             }
@@ -2146,6 +2149,14 @@ impl EGraph {
                     desugared.extend(resolved.resolved);
                     desugared_before_proofs.extend(resolved.resolved_before_proofs);
                 } else {
+                    // A combined ruleset may only name rulesets that exist. Check before the
+                    // command is resolved so that a rejected command leaves nothing behind.
+                    if run_commands
+                        && let Command::UnstableCombinedRuleset(span, _, subs) = &command
+                        && let Some(missing) = subs.iter().find(|s| !self.rulesets.contains_key(*s))
+                    {
+                        return Err(Error::NoSuchRuleset(missing.clone(), span.clone()));
+                    }
                     let resolved = self.resolve_command(command)?;
                     if run_commands && self.are_proofs_enabled() {
                         self.proof_check_program
